@@ -24,6 +24,9 @@ theirs that sub_mesh_pattern cannot notice stays silent).
   scale      sub_mesh_pattern on long patterns (9..12, 31..34, thorough also 257) with sparse
              index sets containing large indices, given as tuple / reversed tuple / list /
              iterator / set / frozenset ("scale", "scale_strongest"); small q inside them ("mims_*").
+  forms/fresh/abort  cross-cutting dimensions: every form of the index argument (submesh);
+             the returned MeshPatt edited in place, then asked again ("fresh"); a BaseException
+             injected at every call event inside an operation, then read back ("abort").
   derived    contains / avoids / in / contained_in / avoided_by / count_occurrences_in agree
              with occurrences_in;  multi: contains/avoids with two arguments.
   types      q given as Perm (classical, viewed as unshaded), BivincularPatt, VincularPatt,
@@ -190,6 +193,25 @@ def result_of_sub(obj, I):
     return tuple(res.pattern), frozenset(res.shading)
 
 
+def fresh_sub(spec, obj, I, sub, reg):
+    lib = _lib()
+    try:
+        res = obj.sub_mesh_pattern(indices=I)
+        try:
+            res.shading = frozenset(R.all_cells(len(I))) - frozenset(res.shading)
+            res.pattern = lib.Perm(tuple(reversed(res.pattern)))
+        except (AttributeError, TypeError):
+            pass                         # an immutable result cannot be damaged: fine
+        again = result_of_sub(obj, I)
+        other = result_of_sub(make(spec), I)
+    except Exception as exc:  # noqa
+        return {"exception": repr(exc)}
+    if again != (sub, reg) or other != (sub, reg):
+        return {"expected": [sub, sorted(reg)], "same_object_after_damaging_the_result": [again[0], sorted(again[1])],
+                "new_equal_object": [other[0], sorted(other[1])]}
+    return None
+
+
 def check_sub(part, spec, obj, strong, forms):
     """All index subsets of one pattern.  strong = {I: semantic strongest shading}."""
     _, patt, cells, _ = spec
@@ -213,17 +235,25 @@ def check_sub(part, spec, obj, strong, forms):
                 "expected": [sub, sorted(sem)], "got": [got[0], sorted(got[1])],
                 "oracle": "cell shaded iff no occurrence of p in any sigma has a point there",
                 "unsound_cells": extra, "missing_cells": sorted(sem - got[1])})
-        if forms and len(I) >= 1:
-            for fname, arg in (("reversed", tuple(reversed(I))), ("iterator", iter(I)),
-                               ("list", list(I))):
+        if forms:
+            # FORMS: the same set of points in every form Iterable[int] admits, and by keyword
+            for fname in FORMS:
+                if fname == "tuple":
+                    continue
                 try:
-                    g2 = result_of_sub(obj, arg)
+                    g2 = result_of_sub(obj, FORMS[fname](I))
                 except Exception as exc:  # noqa
                     part.violation("submesh", dict(case, form=fname), {"exception": repr(exc)})
                     continue
                 if g2 != (sub, reg):
                     part.violation("submesh", dict(case, form=fname),
                                    {"expected": [sub, sorted(reg)], "got": [g2[0], sorted(g2[1])]})
+                part.bump("forms:sub_mesh_pattern-calls")
+            # FRESH: the returned pattern object is the caller's; editing it must not change what the
+            # same pattern, or a new equal one, answers afterwards
+            bad = fresh_sub(spec, obj, I, sub, reg)
+            if bad:
+                part.violation("fresh", case, bad)
         # non-trivial: a proper, non-empty subset whose induced pattern has some but not all of the
         # cells shaded that a cell-by-cell copy would give (i.e. merging or a hidden point matters)
         if 0 < len(reg) < (len(I) + 1) ** 2 and len(I) < len(patt):
@@ -527,6 +557,9 @@ FORMS = {
     "iterator": lambda I: iter(I),
     "set": lambda I: set(I),
     "frozenset": lambda I: frozenset(I),
+    "generator": lambda I: (i for i in I),
+    "map": lambda I: map(int, I),
+    "dict_keys": lambda I: dict.fromkeys(I).keys(),
 }
 
 
@@ -617,6 +650,141 @@ def shard_scale(shard):
     if not part.samples:
         part.sample({"pattern_length": n, "pattern": list(patt) if n <= 12 else "q*i mod n / structured, see bounds",
                      "index_sets": len(sets), "forms": list(forms)}, cap=1)
+    return part
+
+
+# --------------------------------------------------------------------------------------------
+# ABORT: an exception out of the middle of a pattern-in-pattern search / of sub_mesh_pattern must
+# leave both pattern objects and the process-wide tables (Perm.to_standard's cache) usable
+# --------------------------------------------------------------------------------------------
+
+class _Abort(BaseException):
+    pass
+
+
+def _run_with_abort(fn, k, root):
+    """Run fn(); raise _Abort at the k-th 'call' event of a frame whose code lives under root
+    (k=None: never).  Returns (finished?, number of such events seen)."""
+    import sys
+    seen = [0]
+
+    def tracer(frame, event, arg):
+        if event == "call" and frame.f_code.co_filename.startswith(root):
+            seen[0] += 1
+            if seen[0] == k:
+                sys.settrace(None)
+                raise _Abort()
+        return None
+
+    sys.settrace(tracer)
+    try:
+        fn()
+        return True, seen[0]
+    except _Abort:
+        return False, seen[0]
+    finally:
+        sys.settrace(None)
+
+
+ABORT_PAIRS = [      # (q, p)
+    (mesh_spec((0,), [(0, 0)]), mesh_spec((0, 1), [(0, 0), (0, 1), (1, 0)])),
+    (mesh_spec((0, 1), [(1, 1)]), mesh_spec((0, 2, 1), [(1, 1), (1, 2), (2, 1), (2, 2)])),
+    (mesh_spec((1, 0), [(0, 2)]), mesh_spec((2, 1, 0), [(0, 3), (0, 2), (1, 3)])),
+    (("vinc", (0, 1), (1,), ()), ("biv", (0, 1, 2), (1, 2), (0,))),
+    (("perm", (0, 1), None, None), mesh_spec((0, 1, 3, 2), [(2, 2)])),
+    (mesh_spec((), [(0, 0)]), mesh_spec((), [(0, 0)])),
+    (mesh_spec((0, 1), [(0, 0), (2, 2)]), mesh_spec((1, 0, 3, 2), [(0, 0), (1, 0), (0, 1), (1, 1), (4, 4), (3, 4), (2, 2)])),
+]
+ABORT_OPS = ("list", "contains", "avoids2", "sub")
+
+
+def _abort_subsets(k):
+    return dedup([I for I in ((), (0,), (k - 1,), (0, k - 1), tuple(range(1, k))) if all(0 <= i < k for i in I)])
+
+
+def _abort_op(op, q, p):
+    if op == "list":
+        list(q.occurrences_in(p))
+    elif op == "contains":
+        p.contains(q)
+    elif op == "avoids2":
+        p.avoids(q, q)
+    elif op == "sub":
+        for I in _abort_subsets(len(p)):
+            p.sub_mesh_pattern(I)
+
+
+def abort_case(part, pi, op, warm, k, total_only=False):
+    import os
+    import signal
+    import sys
+    from ..core import REPO
+    lib = _lib()
+    root = os.path.join(os.path.abspath(REPO), "permuta") + os.sep
+    qspec, pspec = ABORT_PAIRS[pi]
+    if not warm:
+        lib.Perm._to_standard.cache_clear() if hasattr(lib.Perm, "_to_standard") else None
+    q, p = make(qspec), make(pspec)
+    if warm:
+        list(q.occurrences_in(p))
+    hook0 = sys.unraisablehook
+    sys.unraisablehook = lambda unraisable: None
+    try:
+        finished, total = _run_with_abort(lambda: _abort_op(op, q, p), k, root)
+    finally:
+        sys.unraisablehook = hook0
+    if total_only:
+        return total
+    pp, psh, qsh = pspec[1], spec_shading(pspec), spec_shading(qspec)
+    regs = {I: Y.region(pp, psh, I) for I in Y.index_subsets(len(pp))}
+    exp = [occ for occ in R.occurrences(qspec[1], pp) if qsh <= regs[occ][1]]
+    case = {"q": spec_case(qspec), "p": spec_case(pspec), "op": op, "warm": warm, "abort_at_call": k, "pair": pi}
+
+    def on_alarm(signum, frame):
+        raise TimeoutError("read-back did not finish within 20 s")
+
+    old = signal.signal(signal.SIGALRM, on_alarm)
+    sys.unraisablehook = lambda unraisable: None
+    signal.alarm(20)
+    try:
+        bad = {}
+        got = sorted(q.occurrences_in(p))
+        if got != exp:
+            bad["same objects: occurrences_in"] = got
+        got = sorted(make(qspec).occurrences_in(make(pspec)))
+        if got != exp:
+            bad["new equal objects: occurrences_in"] = got
+        if p.contains(q) is not bool(exp) or p.avoids(q) is not (not exp):
+            bad["contains/avoids"] = [p.contains(q), p.avoids(q)]
+        for who, obj in (("same object", p), ("new equal object", make(pspec))):
+            for I, (sub, reg) in regs.items():
+                if who != "same object" and I not in _abort_subsets(len(pp)):
+                    continue
+                g = result_of_sub(obj, I)
+                if g != (sub, reg):
+                    bad["%s: sub_mesh_pattern(%r)" % (who, I)] = [g[0], sorted(g[1])]
+        if bad:
+            part.violation("abort", case, {"wrong_after_abort": bad, "expected_occurrences": exp})
+    except TimeoutError as exc:
+        part.violation("abort", case, {"hang": str(exc)})
+    except Exception as exc:  # noqa
+        part.violation("abort", case, {"exception_in_read_back": repr(exc)})
+    finally:
+        signal.alarm(0)
+        signal.signal(signal.SIGALRM, old)
+        sys.unraisablehook = hook0
+    part.add(1, 0 if finished else 1)
+    return total
+
+
+def shard_abort(shard):
+    pi, op, warm, part_i, nparts = shard
+    part = Partial()
+    total = abort_case(part, pi, op, warm, None, total_only=True)
+    for k in range(1 + part_i, total + 1, nparts):
+        abort_case(part, pi, op, warm, k)
+    if part_i == 0:
+        part.bump("abort:injection-points", total)
     return part
 
 
@@ -771,7 +939,7 @@ def run(ctx, only=None):
         jobs.append((shard_selfcheck, (2, 5)))
 
     if want("submesh"):
-        for name, per, forms in (("M2", 40, True), ("F3", 40, quick is False), ("F4", 20, False)):
+        for name, per, forms in (("M2", 40, True), ("F3", 40, True), ("F4", 20, False)):
             n = len(_FAM[name])
             jobs += [(shard_sub, (name, lo, min(n, lo + per), forms)) for lo in range(0, n, per)]
         ctx.bounds["submesh"] = {
@@ -779,8 +947,10 @@ def run(ctx, only=None):
                         "full rows/columns, code base); %d of length 4 (%s cells, code base)" % (
                             len(_FAM["M2"]), len(_FAM["F3"]), len(_FAM["F4"]),
                             "0/24/25" if quick else "0/1/23/24/25"),
-            "index_subsets": "all", "index_forms": "sorted tuple; reversed, list, iterator for length <= 2"
-                                                   + ("" if quick else " and the length-3 family")}
+            "index_subsets": "all",
+            "index_forms": "length <= 2 and the length-3 family: " + ", ".join(FORMS),
+            "fresh": "length <= 2 and the length-3 family: the returned MeshPatt is edited in place "
+                     "(shading complemented, pattern reversed), then the same object and a new equal one are asked again"}
         if not quick:
             step = 1 << 11
             for p in R.perms(3):
@@ -811,6 +981,18 @@ def run(ctx, only=None):
             "mimh": "q of length <= 1 with <= 1 or all cells shaded (8) inside every length-5 pattern of the family"
                     + ("" if quick else "; q of length 2 with <= 1 cell (20) inside those with sides >= 3")}
 
+    if want("abort"):
+        jobs += [(shard_abort, (pi, op, warm, i, 4)) for pi in range(len(ABORT_PAIRS)) for op in ABORT_OPS
+                 for warm in (False, True) for i in range(4)]
+        ctx.bounds["abort"] = {"pairs": len(ABORT_PAIRS), "operations": list(ABORT_OPS),
+                               "objects": "new (Perm.to_standard cache cleared, memo of the underlying Perm not built) "
+                                          "and warm",
+                               "injection": "a BaseException at EVERY 'call' event inside permuta/ during the operation "
+                                            "(counter abort:injection-points)",
+                               "read_back": "occurrences_in on the same and on new equal objects, contains/avoids, "
+                                            "sub_mesh_pattern for every index subset on the same object and for (), (0), (k-1), (0,k-1), (1..k-1) "
+                                            "on a new equal object; the aborted `sub` operation walks through these five subsets"}
+
     if want("scale"):
         if "QH" not in _FAM:
             build_family("QH", [s for s in fam_all(1) if len(s[2]) <= 1 or len(s[2]) == (len(s[1]) + 1) ** 2], ctx)
@@ -821,7 +1003,7 @@ def run(ctx, only=None):
         for n in small:
             jobs += [(shard_scale, (n, pi, 3 if quick else 4, True, allforms)) for pi in range(len(scale_patterns(n)))]
         for n in mid:
-            jobs += [(shard_scale, (n, pi, 2, True, allforms)) for pi in range(len(scale_patterns(n)))]
+            jobs += [(shard_scale, (n, pi, 2, True, allforms[:6])) for pi in range(len(scale_patterns(n)))]
         for n in big:
             jobs += [(shard_scale, (n, pi, 2, False, ("tuple", "iterator", "set"))) for pi in range(4)]
         ctx.bounds["scale"] = {
@@ -833,7 +1015,7 @@ def run(ctx, only=None):
                           "{0,1,2,7,8,9,31,32,33,255,256,257,n-2,n-1} below n; the whole probe set and it minus one "
                           "element; even positions; odd positions; all positions; all minus one probe position"
                           % ("3" if quick else "4"),
-            "forms": list(allforms),
+            "forms": "lengths <= 12: " + ", ".join(allforms) + "; lengths >= 31: " + ", ".join(allforms[:6]),
             "length_257": "thorough only: the three q*i mod n patterns and the identity, forms tuple/iterator/set",
             "mims": "8 small q inside every pattern of length <= 12 of this family"}
 
@@ -924,6 +1106,17 @@ def replay(ctx, rec):
         want_sh = reg if sub in ("submesh", "scale") else sem
         if got != (subp, want_sh):
             ctx.violation(sub, case, {"expected": [subp, sorted(want_sh)], "got": [got[0], sorted(got[1])]})
+    elif sub == "abort":
+        abort_case(ctx, case["pair"], case["op"], case["warm"], case["abort_at_call"])
+    elif sub == "fresh":
+        c = dict(case)
+        I = tuple(c.pop("indices"))
+        c.pop("form", None)
+        spec = case_spec(c)
+        subp, reg = Y.region(spec[1], frozenset(spec[2]), I)
+        bad = fresh_sub(spec, make(spec), I, subp, reg)
+        if bad:
+            ctx.violation("fresh", case, bad)
     elif sub == "construct":
         try:
             make(case_spec(case))
